@@ -365,7 +365,11 @@ def main(argv):
 
     coqchk_note = None
     if ok_proofs and tier == "thorough" and not replay:
-        allowed_all = set(a for axs in cfg["theorems"].values() for a in axs) | set(cfg.get("coqchk_axioms", []))
+        # coqchk lists the axioms of every library in the loaded context (Coq's Reals, pulled in by
+        # Flocq through Value.v / VmFloat.v), whether or not a theorem depends on them: those four are
+        # allowed in the context; what each theorem depends on is decided by Print Assumptions above
+        from props import REALS_AXIOMS
+        allowed_all = set(a for axs in cfg["theorems"].values() for a in axs) | set(REALS_AXIOMS) | set(cfg.get("coqchk_axioms", []))
         okc, axc, txt = coqchk(prop_file, allowed_all)
         coqchk_note = "coqchk -o: %s; axioms of the loaded context: %s" % ("accepted" if okc else "REJECTED", axc or "<none>")
         notes.append(coqchk_note)
